@@ -649,3 +649,36 @@ def covering_relation(ctx, fi, rule, graph='G'):
         ctx.ob(rule, fi, between[0], ok, 'edge %s -> %s iff %s is a proper sub-region of %s with no region strictly in between (inclusion, both sides)%s'
                % (r1, r2, r2, r1, '' if ok else ': ' + why), construct='covering relation of the regions')
     return n_ob
+
+
+def inclusive_closures(ctx, fi, rule, attrs=('forebears', 'downp')):
+    """RegionGraph.build_graph: `forebears[r]` / `downp[r]` are the ancestors / descendants of r TOGETHER WITH r itself (the message sets of
+    the region-graph propagation take differences against them: without r the region's own edges are counted as coming from outside).
+    Inclusive: `set([r] + X[r])`, `{r} | ..`, a traversal from r (`dfs_preorder_nodes`, `bfs_tree`, `descendants_at_distance` are not
+    accepted: only the preorder / `nx.descendants(..) | {r}`); exclusive: `nx.descendants(G, r)` / `nx.ancestors(G, r)` / `set(X[r])` alone."""
+    import re
+    raw = getattr(fi, 'original', fi)
+    n = 0
+    for a in ast.walk(raw.node):
+        if not (isinstance(a, ast.Assign) and len(a.targets) == 1 and isinstance(a.targets[0], ast.Attribute) and U(a.targets[0].value) == 'self'
+                and a.targets[0].attr in attrs):
+            continue
+        v = a.value
+        if not (isinstance(v, ast.DictComp) and len(v.generators) == 1 and isinstance(v.generators[0].target, ast.Name) and U(v.key) == v.generators[0].target.id):
+            raise AnalysisError('%s: `self.%s` is not built region by region' % (raw.qualname, a.targets[0].attr))
+        r = v.generators[0].target.id
+        t = U(v.value).replace(' ', '')
+        re_r = re.escape(r)
+        incl = (re.fullmatch(r'set\(\[%s\]\+.+\)' % re_r, t) or re.fullmatch(r'set\(.+\+\[%s\]\)' % re_r, t) or re.fullmatch(r'\{%s\}\|.+' % re_r, t)
+                or re.fullmatch(r'.+\|\{%s\}' % re_r, t) or re.fullmatch(r'set\((nx|networkx)\.dfs_preorder_nodes\(\w+,%s\)\)' % re_r, t)
+                or re.fullmatch(r'set\((nx|networkx)\.(dfs|bfs)_tree\(\w+,%s\)(\.nodes(\(\))?)?\)' % re_r, t))
+        excl = (re.fullmatch(r'(set\()?(nx|networkx)\.(descendants|ancestors)\(\w+,%s\)\)?' % re_r, t) or re.fullmatch(r'set\(self\.\w+\[%s\]\)' % re_r, t)
+                or re.fullmatch(r'set\(\w+\.(neighbors|successors|predecessors)\(%s\)\)' % re_r, t))
+        if not incl and not excl:
+            raise AnalysisError('%s: `self.%s[%s] = %s` is in no recognised form' % (raw.qualname, a.targets[0].attr, r, U(v.value)[:60]))
+        n += 1
+        ctx.ob(rule, fi, a, bool(incl), 'self.%s[%s] holds the %s of %s together with %s itself; built as `%s`%s' % (
+            a.targets[0].attr, r, 'ancestors' if a.targets[0].attr == attrs[0] else 'descendants', r, r, U(v.value)[:70],
+            '' if incl else ' - without the region itself: the propagation counts its own edges as coming from outside'),
+            construct='closure self.%s' % a.targets[0].attr)
+    return n
